@@ -42,6 +42,14 @@ type WorkerLoop struct {
 	leanHelixTerm               *leanhelixterm.LeanHelixTerm
 	onCommitCallback            interfaces.OnCommitCallback
 	onNewConsensusRoundCallback interfaces.OnNewConsensusRoundCallback
+	// nextRound is set when a block was committed: the next height is started by Run once the handler that
+	// committed has returned (a commit can happen deep inside a handler, the cache replay or the construction of a term)
+	nextRound *committedBlockWithProof
+}
+
+type committedBlockWithProof struct {
+	block           interfaces.Block
+	blockProofBytes []byte
 }
 
 func NewWorkerLoop(
@@ -71,6 +79,9 @@ func NewWorkerLoop(
 func (lh *WorkerLoop) Run(ctx context.Context) {
 	lh.logger.Debug("LHFLOW LHMSG WORKERLOOP START LISTENING NOW")
 	for {
+		if ctx.Err() == nil && lh.startNextRoundIfCommitted() {
+			continue
+		}
 		select {
 		case <-ctx.Done(): // system shutdown
 			lh.logger.Info("LHFLOW WORKERLOOP DONE STOPPED LISTENING, SHUTDOWN START")
@@ -237,10 +248,24 @@ func (lh *WorkerLoop) onCommit(ctx context.Context, block interfaces.Block, bloc
 		return err
 	}
 	lh.logger.Debug("LHFLOW onCommitCallback RETURNED from leanhelix.onCommit()")
-	lh.logger.Debug("Calling onNewConsensusRound() from leanhelix.onCommit()")
-	lh.onNewConsensusRound(block, blockProofBytes, true)
+	lh.logger.Debug("onNewConsensusRound() will be called once the committing handler has returned")
+	lh.nextRound = &committedBlockWithProof{block: block, blockProofBytes: blockProofBytes}
 
 	return nil
+}
+
+// startNextRoundIfCommitted starts the height that follows a block committed by the handler that just returned.
+// Starting it from inside onCommit would run it inside whatever committed - a message handler, the replay of the
+// future cache or the construction of a term whose leader is a quorum by itself - which then carried on with the
+// previous height's term and, for a member that keeps deciding alone, recursed once per block.
+func (lh *WorkerLoop) startNextRoundIfCommitted() bool {
+	next := lh.nextRound
+	if next == nil {
+		return false
+	}
+	lh.nextRound = nil
+	lh.onNewConsensusRound(next.block, next.blockProofBytes, true)
+	return true
 }
 
 func (lh *WorkerLoop) onNewConsensusRound(prevBlock interfaces.Block, prevBlockProofBytes []byte, canBeFirstLeader bool) {
@@ -265,12 +290,12 @@ func (lh *WorkerLoop) onNewConsensusRound(prevBlock interfaces.Block, prevBlockP
 
 	lh.logger.ConsensusTrace("starting a new consensus round", nil)
 
-	lh.leanHelixTerm = leanhelixterm.NewLeanHelixTerm(ctx, lh.logger, lh.config, lh.state, lh.electionTrigger, lh.onCommit, prevBlock, prevBlockProofBytes, canBeFirstLeader)
-	// report the round before replaying cached messages: they may already decide this height and start the next
-	// one (re-entering this function), after which lh.state.Height() is no longer the height of this round
+	// report the round before anything can decide it: the term's own proposal (a leader that is a quorum by itself)
+	// and the replay of cached messages may already commit this height
 	if lh.onNewConsensusRoundCallback != nil {
 		lh.onNewConsensusRoundCallback(ctx, lh.state.Height(), prevBlock, canBeFirstLeader)
 	}
+	lh.leanHelixTerm = leanhelixterm.NewLeanHelixTerm(ctx, lh.logger, lh.config, lh.state, lh.electionTrigger, lh.onCommit, prevBlock, prevBlockProofBytes, canBeFirstLeader)
 	lh.logger.Debug("onNewConsensusRound() Calling ConsumeCacheMessages for H=%d", lh.state.Height())
 	lh.filter.ConsumeCacheMessages(lh.leanHelixTerm)
 }
